@@ -596,5 +596,15 @@ fn round(
     _: &mut model::Context,
 ) -> error::Result<model::Value> {
     let arg = f64::try_from(args.first().unwrap())?;
-    Ok(model::Value::Number(arg.round()))
+    Ok(model::Value::Number(round_half_up(arg)))
+}
+
+/// XPath 1.0 4.4 `round`: of two closest integers the one closest to positive infinity
+/// (`f64::round` rounds ties away from zero: -2.5 -> -3, -0.5 -> -1).
+fn round_half_up(v: f64) -> f64 {
+    if v.fract() == -0.5 {
+        v.trunc()
+    } else {
+        v.round()
+    }
 }
